@@ -105,6 +105,33 @@ func shapeSchema(cache, async bool, ext string) sod.Schema {
 	return s
 }
 
+// schemaSettings: the cache / asynchronous-writes settings persisted in the schema.json files under root
+func schemaSettings(root string) string {
+	out := ""
+	filepath.Walk(root, func(p string, info os.FileInfo, err error) error {
+		if err == nil && !info.IsDir() && filepath.Base(p) == "schema.json" {
+			var m map[string]interface{}
+			if b, e := os.ReadFile(p); e == nil && json.Unmarshal(b, &m) == nil {
+				j, _ := json.Marshal([]interface{}{m["cache"], m["async-writes"]})
+				out += string(j)
+			}
+		}
+		return nil
+	})
+	return out
+}
+
+func countObjectFiles(root string) int {
+	n := 0
+	filepath.Walk(root, func(p string, info os.FileInfo, err error) error {
+		if err == nil && !info.IsDir() && filepath.Base(p) != "schema.json" {
+			n++
+		}
+		return nil
+	})
+	return n
+}
+
 func init() { extraCmds["shapes"] = cmdShapes }
 
 func cmdShapes(args []string) {
@@ -156,6 +183,11 @@ func cmdShapes(args []string) {
 					res := [][]interface{}{}
 					call := func(name string, f func() error) { res = append(res, []interface{}{name, guardC(f)}) }
 					sch := shapeSchema(cfg.cache, cfg.async, ext2)
+					if e["rel"] != "compat" {
+						// a Create that must be refused also asks for the opposite cache / async settings: a refusal changes nothing
+						sch = shapeSchema(!cfg.cache, !cfg.async, ext2)
+					}
+					e["settings_before"] = schemaSettings(root)
 					var first sod.Object
 					n := -1
 					call("create", func() error { return db2.Create(b.proto(), sch) })
@@ -182,7 +214,9 @@ func cmdShapes(args []string) {
 					call("schema", func() error { _, err := db2.Schema(b.proto()); return err })
 					e["count"] = n
 					e["same_after_reads"] = hashDir(root) == before
+					nf := countObjectFiles(root)
 					call("put", func() error { return db2.InsertOrUpdate(b.mk(100, 1, "new")) })
+					e["put_files"] = countObjectFiles(root) - nf
 					call("many", func() error { _, err := db2.InsertOrUpdateMany(b.mk(101, 1, "new2")); return err })
 					call("delete", func() error {
 						o := b.proto()
@@ -204,6 +238,7 @@ func cmdShapes(args []string) {
 					call("flush", func() error { return db2.FlushAllAndCommit(b.proto()) })
 					call("close", func() error { return db2.Close() })
 					e["same"] = hashDir(root) == before
+					e["settings_after"] = schemaSettings(root)
 					e["res"] = res
 					// the original declaration still sees its data
 					db3 := sod.Open(root)
